@@ -13,10 +13,10 @@ Inductive teq : Tracer -> Tracer -> Prop :=
 | teq_unknown n : teq (TUnknown n) (TUnknown n)
 | teq_prim n p : teq (TPrim n p) (TPrim n p)
 | teq_list n i i' : teq i i' -> teq (TList n i) (TList n i')
-| teq_struct n m s s' fs fs' :
+| teq_struct n s s' fs fs' :
     (forall k, fget2 k fs = None <-> fget2 k fs' = None) ->
     (forall k t l t' l', fget2 k fs = Some (t, l) -> fget2 k fs' = Some (t', l') -> teq t t') ->
-    teq (TStruct n m s fs) (TStruct n m s' fs').
+    teq (TStruct n false s fs) (TStruct n false s' fs').
 
 Lemma teq_mark t t' : teq t t' -> teq (mark_nullable t) (mark_nullable t').
 Proof. intros H. destruct H; cbn [mark_nullable]; constructor; assumption. Qed.
